@@ -134,6 +134,16 @@ func generate(o *hx.Opts) []*dirIn {
 			add("fail", es, ds)
 		}
 	}
+	// restart: the same Adaptation stopped and started again — healthy directories and every
+	// failure mode (what was launched is launched again once, configured again, killed again)
+	for i, f := range []string{"ok", "exit", "drop", "cfgfail", "syncfail", "die", "idleclose"} {
+		es := []entryIn{probe("10-ok0", 0o755), probe(fmt.Sprintf("20-%s1", f), 0o755), probe("30-ok2", 0o755)}
+		d := add("restart", es, []dropinIn{{Name: "ok0.conf", Kind: "file", Content: "config of ok0"}, {Name: "30-ok2.conf", Kind: "file", Content: "specific"}})
+		d.Restart = true
+		if i%2 == 1 {
+			d.Plan = []string{"r"}
+		}
+	}
 	// two failures of different kinds around one survivor
 	add("fail", []entryIn{probe("10-exit0", 0o755), probe("20-ok1", 0o755), probe("30-die2", 0o755), probe("40-syncfail3", 0o755)}, nil)
 	add("fail", []entryIn{probe("10-die0", 0o755), probe("11-die1", 0o755), probe("20-ok2", 0o755), probe("30-cfgfail3", 0o755)}, nil)
